@@ -119,6 +119,11 @@ func (req *Request) parse(con *Connection) {
 		req.headers.http_headers_add(key, value)
 	}
 	//剩下到就是 body
+	// p starts with the empty line that terminates the header section; the
+	// body is what follows it.
+	if strings.HasPrefix(p, "\r\n") {
+		p = p[2:]
+	}
 	req.body = p
 }
 
